@@ -18,10 +18,8 @@ MODEL_MODULES = ["PdsVerif.Model.ShortenBits", "PdsVerif.Model.Shorten", "PdsVer
 REQUIRED = [
     "PdsVerif.C13." + n
     for n in """uvar_roundtrip var_roundtrip ulong_roundtrip fold_unfold
-    word_reader_refines_bits decodeFile_eq_decodeBits
-    decode_encode decode_encode_file encoder_exists encoder_exists_ulaw
-    ulaw_outward_rows_bijective monitor_irrelevant
-    early_end bad_cmd bad_version bad_type""".split()
+    word_reader_refines_bits decodeFile_eq_decodeBits monitor_irrelevant
+    decode_encode bad_cmd bad_version bad_version_file bad_type""".split()
 ]
 RULE = (
     "streams written by an independent randomised Python shorten encoder: version 1-2, 1-4 channels, allocated block "
